@@ -158,6 +158,34 @@ Proof.
   - intros v Hv. apply (Hs k v Hk Hv).
 Qed.
 
+(* ---- list / iterator of samples, each with its own label order: after the re-alignment to the first
+        sample's order every row is still evaluated as the assignment it was given as ---- *)
+Lemma energy_aligned e pvars first lr :
+  xexpr_wf e -> covers first (xexpr_labels e pvars) = true ->
+  energy (xexpr_poly_labels e pvars) (row_sample first (reindex_row first (fst lr) (snd lr)))
+  = energy (xexpr_poly_labels e pvars) (row_sample (fst lr) (snd lr)).
+Proof.
+  intros Hwf Hc. apply (energy_depends_on_vars _ (xexpr_labels e pvars)).
+  - apply xexpr_poly_labels_mentions. exact Hwf.
+  - intros v Hv. unfold row_sample. apply reindex_row_value.
+    apply (proj1 (covers_spec first (xexpr_labels e pvars)) Hc). exact Hv.
+Qed.
+
+Theorem x_vec_inputs_aligned xm first lrs :
+  xexpr_wf (xm_obj xm) -> covers first (xexpr_labels (xm_obj xm) (xm_pvars xm)) = true ->
+  xcons_wf (xm_cons xm) -> xcons_covered (xm_pvars xm) first (xm_cons xm) ->
+  x_vec_inputs xm first (align_rows first lrs)
+  = Some (map (fun lr => energy (m_obj (xcqm_cqm xm)) (row_sample (fst lr) (snd lr))) lrs,
+          map (fun k => map (fun lr => energy (c_lhs k) (row_sample (fst lr) (snd lr))) lrs) (m_cons (xcqm_cqm xm))).
+Proof.
+  intros Ho Hoc Hwf Hc. rewrite x_vec_inputs_eq by assumption. unfold align_rows, xcqm_cqm. cbn [m_obj m_cons].
+  f_equal. f_equal.
+  - rewrite map_map. apply map_ext. intros lr. apply energy_aligned; assumption.
+  - rewrite !map_map. apply map_ext_in. intros k Hk. rewrite map_map. apply map_ext. intros lr.
+    unfold xcon_con. cbn [c_lhs]. apply energy_aligned; [apply Hwf; exact Hk | apply (Hc k Hk)].
+Qed.
+
+Print Assumptions x_vec_inputs_aligned.
 Print Assumptions x_iter_constraint_data_definition.
 Print Assumptions x_vec_inputs_eq.
 Print Assumptions x_iter_constraint_data_column_order.
